@@ -149,6 +149,44 @@ example : run (pyStep 0) [5, 3, 8, 3] demoOps =
     ([.none, .none, .none, .val 8, .none, .val 4, .none, .none, .val 1, .err .ValueError, .val 3], [7, 4, 3]) := by
   decide
 
+/-! ## index arguments are values: re-using the same index gives the Python result every time
+
+In the model an operation takes its key as an (immutable) value and returns only `(result, new contents)`:
+`step` cannot modify the caller's index, and a later use of the same key does not depend on earlier uses.
+(The code achieves this by working on a private copy `i = key[:]` of a caller-supplied index list in the two
+methods that turn the unit vector into a step function in place, `__delitem__` and `insert`; the harness checks
+after every call on the real code that the caller's index object still opens to the same value and runs
+histories that hand ONE index object to consecutive operations on one or two lists.) -/
+
+/-- the guard of a key depends on the list only through its length: the same index object is a valid key
+for every list of that length (parallel lists) -/
+theorem keyOk_length (f : Nat) (k : Key) (x y : List Int) (h : x.length = y.length) :
+    KeyOk f k x.length ↔ KeyOk f k y.length := by rw [h]
+
+/-- parallel lists: `keys.insert(u, a); vals.insert(u, b)` with ONE secret index `u` inserts at the same
+position of both lists (likewise `del keys[u]; del vals[u]`) -/
+theorem shared_index_parallel (cfg : Cfg) (x y : List Int) (k : Key) (a b : Int) (hl : x.length = y.length)
+    (hk : KeyOk cfg.f k (x.length + 1)) :
+    step cfg x (.insert k a) = pyStep cfg.f x (.insert k a) ∧ step cfg y (.insert k b) = pyStep cfg.f y (.insert k b) :=
+  ⟨step_insert cfg x k a hk, step_insert cfg y k b (hl ▸ hk)⟩
+
+theorem shared_index_parallel_del (cfg : Cfg) (x y : List Int) (k : Key) (hl : x.length = y.length)
+    (hk : KeyOk cfg.f k x.length) :
+    step cfg x (.delitem k) = pyStep cfg.f x (.delitem k) ∧ step cfg y (.delitem k) = pyStep cfg.f y (.delitem k) :=
+  ⟨step_delitem cfg x k hk, step_delitem cfg y k (hl ▸ hk)⟩
+
+/-- take out at a secret position and put back at the SAME index: `a = s.pop(u); s.insert(u, w)` replaces
+the element at that position (the list has its old length again and differs only there) -/
+theorem pop_then_insert_same_index (cfg : Cfg) (hs : SortSpec cfg.srt) (x : List Int) (k : Key) (w : Int)
+    (hk : KeyOk cfg.f k x.length) (hx : (pyStep cfg.f x (.pop k)).2.length + 1 = x.length) :
+    run (step cfg) x [.pop k, .insert k w] = run (pyStep cfg.f) x [.pop k, .insert k w] := by
+  apply SecList.history_refines cfg hs
+  exact ⟨hk, by simpa [Guard, hx] using hk, trivial⟩
+example : run (pyStep 0) [5, 3, 8, 3] [.pop (.vec 0 [0, 1, 0, 0]), .insert (.vec 0 [0, 1, 0, 0]) 103] =
+    ([.val 3, .none], [5, 103, 8, 3]) := by decide
+example : KeyOk 0 (.vec 0 [0, 1, 0, 0]) [5, 3, 8, 3].length ∧
+    (pyStep 0 [5, 3, 8, 3] (.pop (.vec 0 [0, 1, 0, 0]))).2.length + 1 = [5, 3, 8, 3].length := by decide
+
 /-! ## only `len` is public -/
 
 /-- the sequence of runtime primitives called by an operation, with their vector lengths, is a function
